@@ -562,6 +562,51 @@ func runClient(tp *Tape, m *monitor) {
 		surfaces("with cached ticket")
 		cl.Destroy()
 		surfaces("after destroy")
+		if tp.Cred == "password" {
+			// the same user through HTTP Basic: service.KRB5BasicAuthenticator takes the header value a
+			// client sent - well-formed (full flow against the KDC, once honest and once under this run's
+			// fault) and in forms that do not parse; the credentials as sent are a secret like the password
+			creds := "alice@SIM.TEST:" + password
+			std := base64.StdEncoding.EncodeToString([]byte(creds))
+			forms := []struct{ name, hdr, secret string }{
+				{"valid", std, std},
+				{"valid-under-fault", std, std},
+				{"padding-stripped", strings.TrimRight(base64.StdEncoding.EncodeToString([]byte(creds+"x")), "="), strings.TrimRight(base64.StdEncoding.EncodeToString([]byte(creds+"x")), "=")},
+				{"trailing-characters", std + "!!", std},
+				{"url-safe-alphabet", base64.URLEncoding.EncodeToString([]byte("\xfb\xff" + creds)), base64.URLEncoding.EncodeToString([]byte("\xfb\xff" + creds))},
+				{"no-colon", base64.StdEncoding.EncodeToString([]byte("alice@SIM.TEST " + password)), base64.StdEncoding.EncodeToString([]byte("alice@SIM.TEST " + password))},
+				{"no-realm", base64.StdEncoding.EncodeToString([]byte("alice:" + password)), base64.StdEncoding.EncodeToString([]byte("alice:" + password))},
+			}
+			for _, f := range forms {
+				m.t.Add("password", "basic credentials as sent ("+f.name+")", []byte(f.secret))
+			}
+			var svcLog bytes.Buffer
+			st := service.NewSettings(keytab.New(), service.SName("HTTP/host.sim.test"), service.Logger(log.New(&svcLog, "", 0)))
+			for _, f := range forms {
+				armed, errShot = f.name == "valid-under-fault", false
+				net.Beh = map[string]world.Behaviour{}
+				if armed {
+					switch tp.Net {
+					case "refuse", "close", "silent":
+						net.Beh["udp!10.0.0.1:88"] = world.Behaviour{Kind: tp.Net, Arg: tp.NetArg}
+						net.Beh["tcp!10.0.0.1:88"] = world.Behaviour{Kind: tp.Net, Arg: tp.NetArg}
+					}
+				}
+				var ae error
+				engine.Guard(func() {
+					a := service.NewKRB5BasicAuthenticator(f.hdr, cfg, st, client.NewSettings(client.Logger(log.New(&logBuf, "", 0))))
+					_, _, ae = a.Authenticate()
+				})
+				learn()
+				m.scanErr("KRB5BasicAuthenticator.Authenticate ("+f.name+")", ae)
+				m.scan("log", "service logger, basic authentication", svcLog.Bytes())
+				m.scan("log", "client logger, basic authentication", logBuf.Bytes())
+				m.res.Probes["basic-authentication-header-"+f.name]++
+				m.res.Evals++
+			}
+			armed = false
+			net.Beh = map[string]world.Behaviour{}
+		}
 	})
 	simrt.WaitTimeout(24*time.Hour, done)
 	if done.Panic != nil {
